@@ -105,6 +105,31 @@ Theorem C12_ldap_check_accepts_model : forall id creds reqs,
   lcase_sig (mkLCase id creds reqs (map (fun x => snd (fst x)) out) (map snd out)) = 0%N.
 Proof. exact lcase_sig_model. Qed.
 
+(* effect of a login: after a bind (version >= 2) with a configured pair and a non-empty
+   evaluated name, followed by ANY requests that are not a successful bind (failed binds, old
+   versions, malformed binds, operations), every gated operation is answered with success *)
+Theorem C12_ldap_login_has_effect : forall creds login ver dn pw mid tag,
+  2 <= ver -> In (norm_dn dn ++ C_colon :: pw) creds -> norm_dn dn <> [] ->
+  forallb (keeps_login creds) mid = true -> ldap_gated tag = true ->
+  exists rt,
+    fst (ldap_catchall (fst (ldap_run creds login (LBind ver dn pw :: mid))) tag)
+    = Some (rt, RES_SUCCESS).
+Proof. exact ldap_login_effect. Qed.
+
+(* the login state is per connection (frame theorem over all interleavings): in ANY schedule of
+   requests over any number of connections of one service object, what connection c is
+   answered and what is recorded for it is exactly what its own requests yield on a fresh
+   connection served alone *)
+Theorem C12_ldap_connections_independent : forall creds sched c,
+  proj c (ldap_multi creds (fun _ => []) sched) = ldap_session creds (proj c sched).
+Proof. exact (fun creds sched c => ldap_frame creds sched (fun _ => []) c). Qed.
+
+(* the per-connection check (gating, effect of login, decisions, events on each connection's
+   own projection) accepts the multi-connection model's output for every schedule *)
+Theorem C12_ldap_check_accepts_multi_model : forall id creds sched,
+  lmcase_sig (mkLMCase id creds (ldap_multi creds (fun _ => []) sched)) = 0%N.
+Proof. exact lmcase_sig_model. Qed.
+
 (* ---------------- ftp ---------------- *)
 
 (* PASS with an argument: 230 iff CheckPasswd(user of the last USER, argument), for every
@@ -166,6 +191,36 @@ Theorem C12_ftp_check_accepts_model : forall id fs lines,
                      (ftp_events lines) (f_fs (fst r))) = 0%N.
 Proof. exact fcase_sig_model. Qed.
 
+(* effect of a login: on a logged-in connection a command with RequireAuth is executed (or
+   lacks its argument), never answered 530 ... *)
+Theorem C12_ftp_login_has_effect : forall users st l command param c,
+  parse_line l = (command, param) -> ftp_lookup (to_upper command) = Some c ->
+  require_auth c = true -> f_user st <> [] ->
+  snd (ftp_step users st l) = FNoParam \/
+  exists st' codes, ftp_exec users st c param = (st', codes) /\
+                    ftp_step users st l = (st', FExec codes) /\ codes_eqb codes [530%N] = false.
+Proof. exact ftp_login_effect. Qed.
+
+(* ... and a logged-in connection stays logged in, whatever it sends *)
+Theorem C12_ftp_stays_logged_in : forall lines st,
+  f_user st <> [] -> f_user (fst (ftp_run ftp_users st lines)) <> [].
+Proof. exact ftp_run_stays_logged. Qed.
+
+(* the login state is per connection (frame theorem over all interleavings; the file system
+   is shared): in ANY schedule over any number of connections, with any initial file system,
+   the dispatcher's decision for every line of connection c (unknown / argument missing /
+   refused / executed) is the one its own lines yield from its own login state alone *)
+Theorem C12_ftp_connections_independent : forall users sched auth fs c,
+  map (fun x => oclass (snd x)) (proj c (fst (ftp_multi users auth fs sched))) =
+  snd (auth_run users (auth c) (proj c sched)).
+Proof. exact ftp_frame. Qed.
+
+Theorem C12_ftp_gate_depends_on_own_login_only : forall users a line command param c,
+  parse_line line = (command, param) -> ftp_lookup (to_upper command) = Some c ->
+  require_auth c = true -> fst a = [] ->
+  auth_step users a line = (a, 1%N) \/ auth_step users a line = (a, 2%N).
+Proof. exact auth_step_gate. Qed.
+
 (* ---------------- non-vacuity ---------------- *)
 Example C12_ssh_nonvacuous :
   ssh_auth [b_root; b_root_root] b_root b_root = true /\
@@ -193,6 +248,14 @@ Example C12_ldap_old_version_nonvacuous :
      (LBindOther 3 dn, Some (0, 53), mkLE T_BIND (Some b_root) None)]%N.
 Proof. vm_compute. reflexivity. Qed.
 
+(* two connections: 0 logs in, 1 does not; 1's compare is refused after 0's login, 0's is served *)
+Example C12_ldap_multi_nonvacuous :
+  map (fun x => snd (fst (snd x)))
+      (ldap_multi [b_root_root] (fun _ => [])
+         [(0%nat, LBind 3 b_root b_root); (1%nat, LOp 14); (0%nat, LOp 14); (1%nat, LBind 3 [] []); (0%nat, LOp 6)])
+  = [Some (1, 0); Some (15, 53); Some (15, 0); Some (1, 0); Some (7, 0)]%N.
+Proof. vm_compute. reflexivity. Qed.
+
 Example C12_ftp_nonvacuous :
   let mkd := [77;75;68;32;47;109]%N in                                   (* "MKD /m" *)
   let user := [85;83;69;82;32]%N ++ S_anonymous in                       (* "USER anonymous" *)
@@ -216,6 +279,9 @@ Print Assumptions C12_ldap_history_bind_event_fields.
 Print Assumptions C12_ldap_gated.
 Print Assumptions C12_ldap_entries_without_colon_ignored.
 Print Assumptions C12_ldap_check_accepts_model.
+Print Assumptions C12_ldap_login_has_effect.
+Print Assumptions C12_ldap_connections_independent.
+Print Assumptions C12_ldap_check_accepts_multi_model.
 Print Assumptions C12_ftp_pass_iff.
 Print Assumptions C12_ftp_check_passwd_iff.
 Print Assumptions C12_ftp_only_anonymous.
@@ -224,3 +290,7 @@ Print Assumptions C12_ftp_gated.
 Print Assumptions C12_ftp_file_dir_cmds_require_auth.
 Print Assumptions C12_ftp_event_carries_line.
 Print Assumptions C12_ftp_check_accepts_model.
+Print Assumptions C12_ftp_login_has_effect.
+Print Assumptions C12_ftp_stays_logged_in.
+Print Assumptions C12_ftp_connections_independent.
+Print Assumptions C12_ftp_gate_depends_on_own_login_only.
